@@ -304,8 +304,11 @@ class CtxPlan:
         cost = COST.get((aspect, role), 10)
         if aspect == "tape" and role in ("submit", "resubmit"):
             solvers = ("cadical",)  # measured: minisat does not finish the tape aspect within an hour
-            if role == "resubmit":
-                split = True  # each contract-level obligation in its own solver process (800 s -> ~4 min wall)
+            if role == "resubmit" or ALGS[alg][1] > 64:
+                # each contract-level obligation in its own solver process (800 s -> ~4 min wall).  The 128-byte-block
+                # instances (sha512) of submit do not fit into memory as one query: split, a violated obligation is
+                # then still found (seed C01_a) while the frame mass may stay undecided (exit 2, never a pass)
+                split = True
         return Job(
             "ctx/%s_%s/%s/%s" % (alg, fam, role, aspect), [f["anno"]], includes=inc, defines=defs,
             unwind=24, solvers=list(solvers), timeout=timeout or max(600, cost * 4), split=split,
